@@ -21,6 +21,8 @@ fn excluded(p: &Node) -> Option<&'static str> {
 struct Base {
     node: Node,
     multi: usize,
+    /// own texts (searched from a few offsets only) instead of the common text space
+    texts: Option<Vec<String>>,
 }
 
 pub fn run(ctx: &Ctx) -> Outcome {
@@ -29,21 +31,28 @@ pub fn run(ctx: &Ctx) -> Outcome {
     // all sites for the small trees, sampled sites (seeded) for the larger ones
     let all_sites_upto = ctx.tier.pick(3, 4);
     for n in g.upto(all_sites_upto) {
-        bases.push(Base { node: n, multi: 0 });
+        bases.push(Base { node: n, multi: 0, texts: None });
     }
     let mut rng = Rng::new(ctx.seed ^ 0xC03);
     if ctx.tier == Tier::Quick {
         for n in g.of_size(4) {
             if rng.chance(1, 4) {
-                bases.push(Base { node: n, multi: 1 });
+                bases.push(Base { node: n, multi: 1, texts: None });
             }
         }
     }
     for n in gen::products(&g.upto(2)) {
-        bases.push(Base { node: n, multi: 0 });
+        bases.push(Base { node: n, multi: 0, texts: None });
     }
     for n in gen::random_patterns(ctx.seed, ctx.tier.pick(300, 6_000), false, 5, 10) {
-        bases.push(Base { node: n, multi: 3 });
+        bases.push(Base { node: n, multi: 3, texts: None });
+    }
+    // counted repeats with bounds of two and three digits: the VM counts, a delegate gets the
+    // bound re-serialised
+    let big = gen::big_count_family(260);
+    let n_big = big.len();
+    for (n, t) in big {
+        bases.push(Base { node: n, multi: 0, texts: Some(t) });
     }
     let texts = gen::texts(&gen::ALPHA_C01, 3);
     let fj = ctx.known.listed("C03", "FJ");
@@ -73,15 +82,35 @@ pub fn run(ctx: &Ctx) -> Outcome {
             let mut r = Rng::new(seed ^ (i as u64).wrapping_mul(0x9E37));
             (0..b.multi).map(|k| gen::inject_random(p, &mut r, 1 + (k % 3))).collect()
         };
+        // the (text, offset) cases of this base
+        let mut cases: Vec<(&String, usize)> = vec![];
+        match &b.texts {
+            None => {
+                for t in &texts {
+                    for from in gen::offsets(t) {
+                        cases.push((t, from));
+                    }
+                }
+            }
+            Some(own) => {
+                for t in own {
+                    let bs: Vec<usize> = gen::offsets(t).collect();
+                    let mut froms = vec![0, *bs.get(1).unwrap_or(&0), bs[bs.len() / 2], bs[bs.len() - 1]];
+                    froms.sort();
+                    froms.dedup();
+                    for from in froms {
+                        cases.push((t, from));
+                    }
+                }
+            }
+        }
         // base results once
         let mut base_res = vec![];
         let _ = hook_take();
-        for t in &texts {
-            for from in gen::offsets(t) {
-                let r = captures_from(&re, t, from);
-                let h = acc.take_hooks();
-                base_res.push((r, h.aux_mismatch > 0));
-            }
+        for &(t, from) in &cases {
+            let r = captures_from(&re, t, from);
+            let h = acc.take_hooks();
+            base_res.push((r, h.aux_mismatch > 0));
         }
         let mut cap_hits = 0;
         for v in variants {
@@ -114,8 +143,8 @@ pub fn run(ctx: &Ctx) -> Outcome {
                 };
             let mut k = 0;
             let mut any_match = false;
-            for t in &texts {
-                for from in gen::offsets(t) {
+            {
+                for &(t, from) in &cases {
                     acc.evals += 1;
                     let got = captures_from(&re2, t, from);
                     let h = acc.take_hooks();
@@ -156,7 +185,7 @@ pub fn run(ctx: &Ctx) -> Outcome {
     crate::diff::run_witnesses(ctx, "C03", "F1", &mut acc);
     let mut out = Outcome::new(acc);
     out.distinct_nontrivial = out.acc.distinct;
-    out.rule = format!("base patterns: all trees of <= {} nodes with every single injection site (before/after every node at any depth){}; 25 contexts x E(2) with every site; seeded random trees of 5-10 nodes with 1-3 random sites each. Each (base, variant) pair is run on all texts over {{a,b,c,é,\\n,-}} up to length 3 from every offset and captures_from_pos must be identical. Non-trivial = distinct pairs whose route differs (wrapped vs VM) or whose multiset of delegated sub-patterns differs, and that matched at least once.", all_sites_upto, if ctx.tier == Tier::Quick { "; a seeded quarter of the 4-node trees with one random site" } else { "" });
+    out.rule = format!("base patterns: all trees of <= {} nodes with every single injection site (before/after every node at any depth){}; 25 contexts x E(2) with every site; seeded random trees of 5-10 nodes with 1-3 random sites each; {} patterns with counted repeats of 10-256 with every site, on texts of n/10, n-1, n, n+1, 2n repetitions from 4 offsets. Each (base, variant) pair is run on all texts over {{a,b,c,é,\\n,-}} up to length 3 from every offset and captures_from_pos must be identical. Non-trivial = distinct pairs whose route differs (wrapped vs VM) or whose multiset of delegated sub-patterns differs, and that matched at least once.", all_sites_upto, if ctx.tier == Tier::Quick { "; a seeded quarter of the 4-node trees with one random site" } else { "" }, n_big);
     out.assumptions = vec!["patterns with an unbounded repeat of a nullable body are left out (finding F1: the two engines differ there)".into()];
     let wv = out.acc.get("pairs:wrapped-vs-vm");
     let dd = out.acc.get("pairs:different-delegates");
